@@ -32,6 +32,17 @@
  *        with start_seq_num = the value last given to the callback (else the configured start)
  *        -> per op  <hexpiv|->/<hexsaved|->
  *
+ *   rpe <Wcfg> <b12> <con> <nreq> <replay>
+ *        whole exchange through the public client API: <nreq> times coap_send() of GET /r on an
+ *        OSCORE client session; every datagram either side hands to coap_socket_send is carried
+ *        to the other side's coap_handle_dgram until nothing is in flight (Appendix B.1.2: the
+ *        4.01 + Echo challenge and the client's automatic retransmission included).
+ *        -> per client datagram  <g|e><hexpiv>:<verdict>,<last_seq>,<window>,<initial>
+ *           (e = sent by the client while it was processing a datagram from the server;
+ *           replay & 1: after every request all client datagrams recorded so far are delivered
+ *           again, tag r; replay & 2: before that, each with its last byte changed, tag f), then
+ *           " | handler=<n> responses=<n> ok=<number of 2.05> codes=<list, may be cut>"
+ *
  * <variant> names the model variant; it means nothing to the C code.
  */
 #include "coap3/coap_libcoap_build.h"
@@ -43,7 +54,7 @@
 #include <inttypes.h>
 
 /* ------------------------------------------------------------------ captured output */
-#define MAXCAP 8
+#define MAXCAP 64
 static uint8_t cap_buf[MAXCAP][2048];
 static size_t cap_len[MAXCAP];
 static coap_session_t *cap_sess[MAXCAP];
@@ -168,6 +179,8 @@ static int client_up(client_t *c, const char *secret, const char *extra,
   coap_oscore_conf_t *conf;
   c->ctx = coap_new_context(NULL);
   if (!c->ctx) return 0;
+  /* needed for the automatic retransmission with Echo (Appendix B.1.2, RFC 9175) */
+  coap_context_set_block_mode(c->ctx, COAP_BLOCK_USE_LIBCOAP);
   conf = make_conf(secret, "02", "01", extra, cb, NULL, start);
   if (!conf) return 0;
   loop_addr(&srv, 5683);
@@ -399,9 +412,141 @@ static void cmd_sst(void) {
   client_down(&c);
 }
 
+/* ------------------------------------------------------------------ rpe */
+static int resp_count, resp_205;
+static char resp_codes[256];
+static coap_response_t hnd_resp(coap_session_t *s, const coap_pdu_t *sent, const coap_pdu_t *rcv,
+                                const coap_mid_t mid) {
+  (void)s; (void)sent; (void)mid;
+  size_t l = strlen(resp_codes);
+  coap_pdu_code_t c = coap_pdu_get_code(rcv);
+  resp_count++;
+  if (c == COAP_RESPONSE_CODE(205)) resp_205++;
+  if (l + 8 < sizeof(resp_codes)) snprintf(resp_codes + l, sizeof(resp_codes) - l, "%s%u.%02u", l ? "," : "", c >> 5, c & 31);
+  return COAP_RESPONSE_OK;
+}
+
+static client_t *pump_client;
+static int pump_first;
+static uint8_t rec_buf[MAXMSG][160];
+static size_t rec_len[MAXMSG];
+static int nrec;
+
+/* carry every captured datagram to the other side until nothing is in flight; client
+ * datagrams are recorded (record != 0) and reported with the tag character */
+static int pump(int record, char tag) {
+  static int reaction[MAXCAP];
+  int head = 0;
+  client_t *c = pump_client;
+  memset(reaction, 0, sizeof(reaction));
+  while (head < ncap) {
+    uint8_t dg[2048];
+    size_t n = cap_len[head];
+    coap_session_t *from = cap_sess[head];
+    int was_reaction = reaction[head];
+    int mark;
+    memcpy(dg, cap_buf[head], n);
+    head++;
+    mark = ncap;
+    if (from->context == c->ctx) {
+      /* client -> server */
+      size_t vl;
+      uint8_t *ov = find_oscore_opt(dg, n, &vl);
+      uint64_t piv = 0;
+      char verdict[16];
+      int before = handler_calls;
+      if (ov && vl > 0) for (int k = 0; k < (ov[0] & 7); k++) piv = (piv << 8) | ov[1 + k];
+      if (record && ov && nrec < MAXMSG && n <= sizeof(rec_buf[0])) {
+        memcpy(rec_buf[nrec], dg, n);
+        rec_len[nrec++] = n;
+      }
+      coap_lock_lock(sctx, return 0);
+      coap_handle_dgram(sctx, ssess, dg, n);
+      coap_lock_unlock(sctx);
+      snprintf(verdict, sizeof(verdict), handler_calls > before ? "A" : "E");
+      for (int k = mark; k < ncap && handler_calls == before; k++) {
+        size_t v2;
+        uint8_t *d2 = cap_buf[k];
+        if (cap_len[k] < 4 || d2[1] == 0) continue;
+        if (find_oscore_opt(d2, cap_len[k], &v2)) snprintf(verdict, sizeof(verdict), "C");
+        else if (d2[1] == COAP_RESPONSE_CODE(401)) snprintf(verdict, sizeof(verdict), "R");
+        else if (d2[1] == COAP_RESPONSE_CODE(400)) snprintf(verdict, sizeof(verdict), "D");
+        else snprintf(verdict, sizeof(verdict), "?%u%02u", d2[1] >> 5, d2[1] & 31);
+        break;
+      }
+      if (ov) {
+        printf("%s%c%" PRIx64 ":%s,%" PRIx64 ",%" PRIx64 ",%d", pump_first ? "" : " ",
+               tag ? tag : (was_reaction ? 'e' : 'g'), piv, verdict, rcp->last_seq,
+               rcp->sliding_window, rcp->initial_state);
+        pump_first = 0;
+      }
+    } else {
+      /* server -> client; what the client sends while handling it is a reaction */
+      coap_lock_lock(c->ctx, return 0);
+      coap_handle_dgram(c->ctx, c->sess, dg, n);
+      coap_lock_unlock(c->ctx);
+      for (int k = mark; k < ncap && k < MAXCAP; k++) reaction[k] = 1;
+    }
+  }
+  return 1;
+}
+
+static void cmd_rpe(void) {
+  client_t c = {0};
+  int b12, con, nreq, replay;
+  if (vntok < 6) { printf("BAD-CASE\n"); return; }
+  b12 = atoi(vtok[2]);
+  con = atoi(vtok[3]);
+  nreq = atoi(vtok[4]);
+  replay = atoi(vtok[5]);
+  resp_count = resp_205 = 0;
+  resp_codes[0] = 0;
+  nrec = 0;
+  pump_client = &c;
+  pump_first = 1;
+  if (!server_up(vtok[1], b12, 1) || !client_up(&c, SECRET_A, "", NULL, 0)) {
+    printf("SETUP-FAILED\n");
+    goto done;
+  }
+  coap_register_response_handler(c.ctx, hnd_resp);
+  for (int q = 0; q < nreq; q++) {
+    coap_pdu_t *pdu = coap_new_pdu(con ? COAP_MESSAGE_CON : COAP_MESSAGE_NON,
+                                   COAP_REQUEST_CODE_GET, c.sess);
+    uint8_t t[2] = { 0x70, (uint8_t)q };
+    if (!pdu) break;
+    coap_add_token(pdu, 2, t);
+    coap_add_option(pdu, COAP_OPTION_URI_PATH, 1, (const uint8_t *)"r");
+    ncap = 0;
+    if (coap_send(c.sess, pdu) == COAP_INVALID_MID) {
+      printf("%sSENDFAIL", pump_first ? "" : " ");
+      pump_first = 0;
+      continue;
+    }
+    if (!pump(1, 0)) goto done;
+    /* an attacker puts recorded datagrams on the wire again (replay & 1: all of them after
+     * every request; replay & 2: each of them with the last byte of the tag flipped first) */
+    for (int k = 0; k < nrec && replay; k++) {
+      for (int pass = 0; pass < 2; pass++) {
+        if (!(replay & (pass ? 1 : 2))) continue;
+        ncap = 1;
+        memcpy(cap_buf[0], rec_buf[k], rec_len[k]);
+        cap_len[0] = rec_len[k];
+        cap_sess[0] = c.sess;
+        if (!pass) cap_buf[0][cap_len[0] - 1] ^= 0x80;
+        if (!pump(0, pass ? 'r' : 'f')) goto done;
+      }
+    }
+  }
+  printf("%s| handler=%d responses=%d ok=%d codes=%s\n", pump_first ? "" : " ", handler_calls,
+         resp_count, resp_205, resp_codes[0] ? resp_codes : "-");
+done:
+  client_down(&c);
+  server_down();
+}
+
 int main(void) {
   coap_startup();
-  coap_set_log_level(COAP_LOG_EMERG);
+  coap_set_log_level(getenv("VERIF_LOG") ? (coap_log_t)atoi(getenv("VERIF_LOG")) : COAP_LOG_EMERG);
   while (next_case(stdin)) {
     if (vntok == 0) { putchar('\n'); continue; }
     if (!strcmp(vtok[0], "rpc"))
@@ -410,6 +555,7 @@ int main(void) {
     else if (!strcmp(vtok[0], "rpu")) cmd_rpu();
     else if (!strcmp(vtok[0], "rpd")) cmd_rpd();
     else if (!strcmp(vtok[0], "sst")) cmd_sst();
+    else if (!strcmp(vtok[0], "rpe")) cmd_rpe();
     else printf("ERROR unknown command\n");
     fflush(stdout);
   }
